@@ -175,17 +175,17 @@ func (r *Run) freeMapperVerdict(call int) mapperVerdict {
 	return mapperVerdict{}
 }
 
-// onConsumed is called by simConn.Read (free-running mode) with conn.mu held.
+// onConsumed is called by simConn.Read (free-running mode) with conn.mu held. It
+// reads only what was fixed on the connection at dial time.
 func (r *Run) onConsumed(c *simConn) {
-	f := r.free
-	if f == nil || r.att == nil || r.att.Plan.Stop != stopCancel || f.cancelMode == 2 || f.fired.Load() {
+	if c.freeCancel == nil || c.freePlan.Stop != stopCancel || c.freeMode == 2 || c.freeFired {
 		return
 	}
 	m := c.master
 	if m == nil || m.phase != phDumping || len(m.packets) == 0 {
 		return
 	}
-	k := r.att.Plan.CancelAfter
+	k := c.freePlan.CancelAfter
 	if k >= len(m.packets) {
 		k = len(m.packets) - 1
 	}
@@ -193,11 +193,11 @@ func (r *Run) onConsumed(c *simConn) {
 		k = 0
 	}
 	if c.consumed-m.dumpBase >= m.packets[k].end {
-		f.fired.Store(true)
-		if f.cancelMode == 0 {
-			r.cancel()
+		c.freeFired = true
+		if c.freeMode == 0 {
+			c.freeCancel()
 		} else {
-			go r.cancel()
+			go c.freeCancel()
 		}
 	}
 }
@@ -213,9 +213,39 @@ type RaceReport struct {
 	ViaB      string
 	Text      string
 	Marker    string
+	Harness   bool // one of the two accesses is harness code
 }
 
 var raceFuncRe = regexp.MustCompile(`^  (\S+)\(`)
+
+// stdFrame: a frame of the Go runtime or standard library (the first element of
+// its package path has no dot and it is not the harness itself). A library
+// function spinning around strings.Index is still a library spin.
+func stdFrame(l string) bool {
+	first := l
+	if i := strings.Index(first, "/"); i >= 0 {
+		first = first[:i]
+	} else if i := strings.Index(first, "."); i >= 0 {
+		first = first[:i]
+	}
+	if first == "verifsim" || first == "main" || first == "" {
+		return false
+	}
+	return !strings.Contains(first, ".")
+}
+
+// accessInHarness: the racing memory access itself (innermost frame that is not
+// runtime / standard library) is harness code, e.g. a simulated connection's Read
+// called by a library goroutine. Such a report is the harness's own race.
+func accessInHarness(stack []string) bool {
+	for _, fn := range stack {
+		if stdFrame(fn) {
+			continue
+		}
+		return !libFrame(fn)
+	}
+	return true
+}
 
 func firstLibFrame(stack []string) (top string, via string) {
 	for _, fn := range stack {
@@ -293,6 +323,7 @@ func parseRaceLog(log string) []RaceReport {
 		if len(stacks) >= 2 {
 			rr.A, rr.ViaA = firstLibFrame(stacks[0])
 			rr.B, rr.ViaB = firstLibFrame(stacks[1])
+			rr.Harness = accessInHarness(stacks[0]) || accessInHarness(stacks[1])
 		}
 		sides := []string{shortFunc(rr.A) + " via " + rr.ViaA, shortFunc(rr.B) + " via " + rr.ViaB}
 		sort.Strings(sides)
